@@ -2,11 +2,14 @@
 //! (`<kind> <field> <field> ...`), prints one canonical result line per case.
 //! Everything observed is public API of /repo's crates; panics are caught and
 //! reported as `PANIC <message>`.
+mod gen_enums;
 mod k_conv;
 mod k_dev;
+mod k_enum;
 mod k_errtab;
 mod k_fmt;
 mod k_lex;
+mod k_list;
 mod k_mm;
 mod k_nv;
 mod k_queue;
@@ -29,6 +32,8 @@ fn dispatch(kind: &str, args: &[&str]) -> String {
         "conv" => k_conv::run(args),
         "fmt" => k_fmt::run(args),
         "nv" => k_nv::run(args),
+        "enum" | "enumv" => k_enum::run(kind, args),
+        "nlist" | "clist" => k_list::run(kind, args),
         "tree" => k_tree::run(args),
         _ => format!("UNKNOWN-KIND {}", kind),
     }
